@@ -12,11 +12,12 @@ CONSTANTS NSlots, Recover, TheCfg
 VARIABLES k, since, status, pattern
 mvars == <<k, since, status, pattern>>
 
-(* fault patterns: at most two dropout runs of 1..3 slots, any kind, the first slot clean *)
+(* fault patterns: at most two dropout runs of 1..3 slots, any kind, anywhere -- also in the very first slot (then the run has   *)
+(* no valid first sample to take its initial attitude from: the safety part applies, the closeness part needs a common start) *)
 Pat(s1, l1, k1, s2, l2, k2) == [ i \in 1..NSlots |-> IF i >= s1 /\ i < s1 + l1 THEN k1
                                                      ELSE IF i >= s2 /\ i < s2 + l2 THEN k2 ELSE "ok" ]
 Kinds == FaultKinds \ {"ok"}
-Patterns == { Pat(s1, l1, k1, s2, l2, k2) : s1 \in 2..NSlots, l1 \in 1..3, k1 \in Kinds,
+Patterns == { Pat(s1, l1, k1, s2, l2, k2) : s1 \in 1..NSlots, l1 \in 1..3, k1 \in Kinds,
                                             s2 \in 2..(NSlots+1), l2 \in 0..3, k2 \in Kinds }
 
 MInit == pattern \in Patterns /\ k = 0 /\ since = Recover /\ status = "running"
@@ -26,7 +27,7 @@ Slot(outcome, close) ==
     /\ LET fk == pattern[k + 1] vis == Visible(TheCfg, fk) IN
        /\ outcome \in AllowedOutcomes(TheCfg, fk)
        /\ since' = IF vis THEN 0 ELSE since + 1
-       /\ (since' >= Recover => close)
+       /\ ((since' >= Recover /\ pattern[1] = "ok") => close)
        /\ status' = IF outcome = "Rejected" THEN "rejected" ELSE "running"
     /\ k' = k + 1 /\ UNCHANGED pattern
 MNext == \E o \in {"Ok", "Skipped", "Rejected"}, c \in BOOLEAN : Slot(o, c)
